@@ -417,10 +417,19 @@ pub fn run(tier: Tier) -> i32 {
     // long horizon (E2): sixteen intervals of a default pattern with at most k departures
     {
         use std::hash::{Hash, Hasher};
-        let sys = interval_system(&mon2, 65530);
-        let n_macros = sys.macros.len();
         let k = tier.pick(2, 3);
         let mut total = simcore::dev::DevStats::default();
+        let mut samples = vec![];
+        let n_macros = interval_system(&mon2, 65530).macros.len();
+        // ... for an ordinary clock, and for a slave-only instance whose announce receipt timeout (10
+        // intervals) lies beyond the qualification window: its fall-back state is LISTENING
+        for slave_only in [false, true] {
+        let mut sys = interval_system(&mon2, 65530);
+        if slave_only {
+            sys.cfg.node.slave_only = true;
+            sys.cfg.node.ports[0].receipt_timeout = 10;
+            sys.name = format!("{}-slaveonly", sys.name);
+        }
         // default patterns as macro indices: both masters fresh every interval (macro of a=1,b=1),
         // only the best master, total silence, best master every other interval
         let idx = |a: usize, b: usize| -> usize {
@@ -439,8 +448,10 @@ pub fn run(tier: Tier) -> i32 {
             ("best-every-other", (0..16).map(|i| if i % 2 == 0 { idx(1, 0) } else { idx(0, 0) }).collect()),
             ("second-then-both", (0..16).map(|i| if i < 6 { idx(0, 1) } else { idx(1, 1) }).collect()),
         ];
-        let mut samples = vec![];
         for (name, base) in &patterns {
+            if slave_only && !matches!(*name, "silence" | "best-only") {
+                continue;
+            }
             let f = |dev: &[(usize, usize)]| -> (Vec<Violation>, u64) {
                 let mut hist: Vec<Ev> = base.iter().map(|m| Ev::Macro(*m)).collect();
                 for (p, a) in dev {
@@ -460,7 +471,8 @@ pub fn run(tier: Tier) -> i32 {
             rep.violations(v);
             total.executions += st.executions;
             total.distinct_end_states += st.distinct_end_states;
-            samples.push(json!({"pattern": name, "executions": st.executions, "per_bound": st.per_bound, "distinct_end_states": st.distinct_end_states}));
+            samples.push(json!({"pattern": name, "slave_only": slave_only, "executions": st.executions, "per_bound": st.per_bound, "distinct_end_states": st.distinct_end_states}));
+        }
         }
         rep.cover("long_horizon", json!({"intervals": 16, "deviation_bound": k, "alternatives_per_interval": n_macros - 1, "executions": total.executions, "patterns": samples}));
     }
